@@ -57,6 +57,14 @@ type SenderScript struct {
 	Stats bool
 	// RawList, if set, is sent instead of encoding List.
 	RawList []byte
+	// HalfClose: close the sending direction once everything has been sent
+	// (before waiting for the goodbye), so that a receiver left waiting for
+	// bytes a damaged stream announced sees EOF instead of hanging.
+	HalfClose bool
+	// BeforeGoodbye is set by the role wrappers to implement HalfClose.
+	BeforeGoodbye func()
+	// OnRequest is called when a request arrives, before the reply is built.
+	OnRequest func(req Request)
 }
 
 type SenderLog struct {
@@ -121,6 +129,9 @@ func RunSender(r *rp.R, w io.Writer, s *SenderScript) (*SenderLog, error) {
 			return log, fmt.Errorf("reading sums for %d: %w", idx, r.Err)
 		}
 		log.Requests = append(log.Requests, req)
+		if s.OnRequest != nil {
+			s.OnRequest(req)
+		}
 		var rep *Reply
 		if s.Reply != nil {
 			rep = s.Reply(req)
@@ -151,6 +162,9 @@ func RunSender(r *rp.R, w io.Writer, s *SenderScript) (*SenderLog, error) {
 		if _, err := w.Write(ww.Bytes()); err != nil {
 			return log, err
 		}
+	}
+	if s.HalfClose && s.BeforeGoodbye != nil {
+		s.BeforeGoodbye()
 	}
 	g := r.Int()
 	if r.Err != nil {
@@ -331,6 +345,7 @@ func RunReceiver(dest string, o RecvOpts, seed int32, script *SenderScript) (rec
 		Progress: progress.NewPrinter(io.Discard, time.Now),
 	}
 	done := make(chan struct{})
+	script.BeforeGoodbye = func() { s2c.Close() }
 	go func() {
 		defer close(done)
 		slog, sendErr = RunSender(&rp.R{Rd: c2s}, s2c, script)
